@@ -35,4 +35,5 @@ func main() {
 	flag.Parse()
 	genRuneWidth()
 	genConsts()
+	genTerminfo()
 }
